@@ -149,6 +149,9 @@ type Conn struct {
 	jobList []func()
 
 	readEvents int32
+	// set when the peer has shut down while data is still unread: the
+	// asynchronous reading job reads until the end of the stream then.
+	readToEOF int32
 
 	dataHandler func(c *Conn, data []byte)
 
@@ -210,7 +213,7 @@ func (c *Conn) AsyncRead() {
 					_ = c.closeWithError(io.EOF)
 					return
 				}
-				if n < len(*pBuf) && !c.IsUDP() {
+				if n < len(*pBuf) && !c.IsUDP() && atomic.LoadInt32(&c.readToEOF) == 0 {
 					break
 				}
 			}
